@@ -29,6 +29,13 @@ struct Str {          // heap-owning key in a copy tree (lifetime errors become 
     explicit Str(int k) : s("key-" + std::to_string(k) + "-long-enough-to-live-on-the-heap"), key(k) {}
 };
 
+VERIF_MISLEADING_ORDER(Big, key)
+VERIF_MISLEADING_EQUALITY(Big, key)
+VERIF_MISLEADING_ORDER(Small, key)
+VERIF_MISLEADING_EQUALITY(Small, key)
+VERIF_MISLEADING_ORDER(Str, key)
+VERIF_MISLEADING_EQUALITY(Str, key)
+
 template <typename T> struct Less { bool operator()(const T& a, const T& b) const { return a.key < b.key; } };
 template <typename T> struct Greater { bool operator()(const T& a, const T& b) const { return a.key > b.key; } };
 
